@@ -1,7 +1,193 @@
-import ArchSim.Model.Pipe
+/-
+C02 (control half): the five-stage pipeline with hazard detection (interlock stalls, MEM/EX/WB
+flushes, ECALL drain) refines the sequential execution of the instructions one after the other.
+
+The sequential reference is `Pipe.seqStep` (`ArchSim/Spec/PipeSeq.lean`): `Pipe.splitStep` with a
+faulting instruction left unexecuted; the data-path half of C02 relates `splitStep` to the
+single-cycle `Rv.singleStep`. The proof uses completion functions: `Pipe.abs p` completes the
+in-flight instructions of the pipeline state `p` oldest first and stops at the first one that
+redirects, exits or faults (`ArchSim/Lemmas/C02Abs.lean`). States are compared by `Pipe.SimP`:
+registers, data memory system (hence data cache state and counters), output, exit code, retired /
+branch / procedure counters, program and pc; the cycle / stall / flush counters and the
+instruction-cache state are not compared (wrong-path fetches touch the instruction cache).
+
+Hypotheses: `ProgOK` (instructions as the Python constructors build them: `ecall` has `rd = 0`,
+`srai` a non-negative stored shift amount) and `ICoh` (the instruction memory system returns the
+stored instruction: trivial without instruction cache, C11 with one).
+-/
+import ArchSim.Lemmas.C02Conv
+
 namespace ArchSim.Props.C02
-open ArchSim.Pipe
-/-- A freshly initialised pipeline has empty latches. -/
-theorem init_empty (s : ArchSim.Rv.St) (h : Bool) : (PSt.init s h).l0 = none ∧ (PSt.init s h).stalled = none := by
-  simp [PSt.init]
+open ArchSim ArchSim.Rv ArchSim.Pipe
+
+/-- The shape invariant holds initially. -/
+theorem inv_init (st : St) (hz : Bool) (hp : ProgOK st.imem) (hc : ICoh st.imem) :
+    PInv (PSt.init st hz) := PInv_init st hz hp hc
+
+/-- The shape invariant is preserved by every cycle that does not raise a fault (with or without
+    hazard detection). -/
+theorem inv_step (p : PSt) (hI : PInv p) (hf : (step p).fault = none) : PInv (step p).p :=
+  PInv_step p hI hf
+
+/-- (b1) One non-faulting cycle is one sequential step on the abstraction if the cycle performs a
+    correct-path fetch (`fetchOK`: not stalled, an instruction exists at the physical pc, nothing in
+    flight redirects / exits / faults) and leaves the abstraction unchanged otherwise (stalled cycle,
+    no instruction at pc, wrong-path fetch, flush cycle); the fault predicted for the oldest faulting
+    in-flight instruction (`absF`) evolves accordingly, and so does the retire order: the address
+    retired by WB in this cycle followed by the addresses pending afterwards (`absLog`) = the
+    addresses pending before followed by the address executed by the sequential step. Covers
+    interlock stalls, ECALL drain, and flushes from EX, MEM and WB. -/
+theorem abs_step (p : PSt) (hI : PInv p) (hz : p.hazard = true) (hf : (step p).fault = none) :
+    SimP (abs (step p).p) (if fetchOK p then seqStep (abs p) else abs p) ∧
+    absF (step p).p = (if fetchOK p then seqFault (abs p) else absF p) ∧
+    latchLog p.l3 ++ absLog (step p).p = absLog p ++ (if fetchOK p then seqLog (abs p) else []) :=
+  Pipe.abs_step p hI hz hf
+
+/-- (b2) After `n` non-faulting cycles from the initial pipeline state, the abstraction of the
+    pipeline state is the sequential state after `k ≤ n` steps (`k` = number of correct-path
+    fetches). -/
+theorem pipe_refines_seq (st : St) (hp : ProgOK st.imem) (hc : ICoh st.imem) (n : Nat)
+    (hr : runOK n (PSt.init st true)) :
+    ∃ k, k ≤ n ∧ SimP (abs (pipeRun n (PSt.init st true))) (seqRun k st) := by
+  obtain ⟨k, hk, h, _⟩ := refine_run _ (PInv_init st true hp hc) rfl n hr
+  rw [abs_init] at h
+  exact ⟨k, hk, h⟩
+
+/-- (b6) RETIRE ORDER: after `n` non-faulting cycles, the addresses that left WB so far
+    (`retireLog`: `l4` non-empty after a cycle), followed by the addresses of the in-flight
+    instructions that will still retire (`absLog`, oldest first; wrong-path and faulting entries
+    excluded), are exactly the addresses executed by the first `k` sequential steps, in order, where
+    `k` is the index of `pipe_refines_seq`. In particular the retired sequence is a prefix of the
+    sequential address trace. -/
+theorem retire_order (st : St) (hp : ProgOK st.imem) (hc : ICoh st.imem) (n : Nat)
+    (hr : runOK n (PSt.init st true)) :
+    ∃ k, k ≤ n ∧ SimP (abs (pipeRun n (PSt.init st true))) (seqRun k st) ∧
+      retireLog n (PSt.init st true) ++ absLog (pipeRun n (PSt.init st true)) = seqTrace k st := by
+  obtain ⟨k, hk, h, _, hl⟩ := refine_run _ (PInv_init st true hp hc) rfl n hr
+  rw [abs_init] at h
+  rw [abs_init, absLog_init] at hl
+  exact ⟨k, hk, h, by simpa using hl⟩
+
+/-- (b3) When `is_done()` holds and no exit code is set, all latches are empty and the abstraction
+    *is* the physical architectural state. -/
+theorem done_is_physical (p : PSt) (hI : PInv p) (hd : isDone p = true) (hx : p.st.exitCode = none) :
+    abs p = p.st := done_noexit_physical p hI hd hx
+
+/-- (b3) The cycle in which the exit code appears (the exiting ECALL retires) flushes all latches:
+    instructions fetched behind the ECALL are dead, and the abstraction is the physical state. -/
+theorem exit_is_physical (p : PSt) (hI : PInv p) (hf : (step p).fault = none)
+    (hx : p.st.exitCode = none) (hx' : (step p).p.st.exitCode.isSome = true) :
+    abs (step p).p = (step p).p.st := exit_retire_physical p hI hf hx hx'
+
+/-- (b3) FINAL STATE: when the loop `while not is_done(): step()` stops after `n` cycles without a
+    fault, the physical registers, data memory system (with data-cache state and counters), output,
+    exit code, retired-instruction, branch and procedure counts and pc are those of the sequential
+    machine after `k ≤ n` steps, where `k` is the first step at which the sequential machine is done
+    (the point where the single-cycle loop stops), and the sequence of retired instruction addresses
+    is the sequence of addresses executed by these `k` sequential steps. -/
+theorem final_state (st : St) (hp : ProgOK st.imem) (hc : ICoh st.imem) (hx : st.exitCode = none)
+    (n : Nat) (hr : runOK n (PSt.init st true)) (hd : isDone (pipeRun n (PSt.init st true)) = true)
+    (hprev : ∀ m, m < n → isDone (pipeRun m (PSt.init st true)) = false) :
+    ∃ k, k ≤ n ∧ SimP (pipeRun n (PSt.init st true)).st (seqRun k st) ∧ singleDone (seqRun k st) = true ∧
+      (∀ j, j < k → singleDone (seqRun j st) = false) ∧
+      retireLog n (PSt.init st true) = seqTrace k st :=
+  final_state_init st hp hc hx n hr hd hprev
+
+/-- (b4) A fault reported by a cycle is predicted by the abstraction: the abstraction is stuck in
+    front of the instruction at that address with that fault, and the physical registers and output
+    at the moment of the fault are those of the abstraction. -/
+theorem fault_is_predicted (p : PSt) (hI : PInv p) (ft : PFault) (h : (step p).fault = some ft) :
+    absF p = some (ft.addr, ft.fault) ∧ (abs p).pc = ft.addr ∧
+      (step p).p.st.regs = (abs p).regs ∧ (step p).p.st.output = (abs p).output :=
+  fault_local p hI ft h
+
+/-- (b4) If cycle `n + 1` is the first to report a fault, for the instruction at address `a`, then
+    the sequential machine after some `k ≤ n` steps stands at `a` and faults there with the same
+    fault, and the physical registers and output at the moment of the fault are those of that
+    sequential state (the state before the faulting instruction). -/
+theorem fault_agrees (st : St) (hp : ProgOK st.imem) (hc : ICoh st.imem) (n : Nat)
+    (hr : runOK n (PSt.init st true)) (ft : PFault)
+    (hft : (step (pipeRun n (PSt.init st true))).fault = some ft) :
+    ∃ k, k ≤ n ∧ seqFault (seqRun k st) = some (ft.addr, ft.fault) ∧ (seqRun k st).pc = ft.addr ∧
+      (step (pipeRun n (PSt.init st true))).p.st.regs = (seqRun k st).regs ∧
+      (step (pipeRun n (PSt.init st true))).p.st.output = (seqRun k st).output := by
+  have := fault_agrees_run _ (PInv_init st true hp hc) rfl (absF_init st true) n hr ft hft
+  rw [abs_init] at this
+  exact this
+
+/-- (b4, converse) If the sequential machine is stuck at a fault after `kstar` steps and was not done
+    at any step up to there, the pipeline reports that fault (same address, same fault) after fewer
+    than `5 * (kstar + 2)` cycles, all earlier cycles being fault-free. -/
+theorem fault_complete (st : St) (hp : ProgOK st.imem) (hc : ICoh st.imem) (hx : st.exitCode = none)
+    (kstar : Nat) (a : Int) (f : Fault) (hflt : seqFault (seqRun kstar st) = some (a, f))
+    (hnd : ∀ k, k ≤ kstar → singleDone (seqRun k st) = false) :
+    ∃ n ft, n < 5 * (kstar + 2) ∧ runOK n (PSt.init st true) ∧
+      (step (pipeRun n (PSt.init st true))).fault = some ft ∧ ft.addr = a ∧ ft.fault = f :=
+  fault_complete_init st hp hc hx kstar a f hflt hnd
+
+/-- (b5) While an instruction that redirects (taken branch, JAL, JALR), exits or faults is in
+    flight, nothing younger has any architectural effect: a cycle leaves the abstraction (which
+    already contains the completion of that instruction and of everything older) unchanged, whatever
+    is fetched, decoded or executed behind it. -/
+theorem younger_no_effect (p : PSt) (hI : PInv p) (hz : p.hazard = true) (hf : (step p).fault = none)
+    (hred : (absC p).red.isSome = true) :
+    SimP (abs (step p).p) (abs p) ∧ absF (step p).p = absF p ∧
+      latchLog p.l3 ++ absLog (step p).p = absLog p := by
+  have h := Pipe.abs_step p hI hz hf
+  rw [fetchOK_false_of_red hred] at h
+  simpa using h
+
+/-- (c) PROGRESS with K = 5: from every state satisfying the invariant, within 5 non-faulting
+    cycles the pipeline is done or has retired at least one more instruction. -/
+theorem pipe_progress (p : PSt) (hI : PInv p) (hok : runOK 5 p) :
+    ∃ j, j ≤ 5 ∧ (isDone (pipeRun j p) = true ∨ p.st.instrs < (pipeRun j p).st.instrs) :=
+  progress5 p hI hok
+
+/-- (c) TERMINATION: if the sequential machine is done, or stuck at a fault, after `kstar` steps,
+    the five-stage pipeline has raised a fault or is done after at most `5 * (kstar + 2)` cycles. -/
+theorem pipe_terminates (st : St) (hp : ProgOK st.imem) (hc : ICoh st.imem) (kstar : Nat)
+    (hh : singleDone (seqRun kstar st) = true ∨ (seqFault (seqRun kstar st)).isSome = true) :
+    ∃ N, N ≤ 5 * (kstar + 2) ∧
+      (¬ runOK N (PSt.init st true) ∨ isDone (pipeRun N (PSt.init st true)) = true) :=
+  terminates_init st hp hc kstar hh
+
+/-! ### Non-vacuity: a program with a RAW interlock, a store/load pair, a taken branch (one squashed
+instruction) and an exiting ECALL (drain + three flushes) satisfies the hypotheses and runs to
+completion in 23 cycles without a fault. -/
+
+def exProg : List Instr :=
+  [ { op := .addi, rd := 1, rs1 := 0, imm := 5 },
+    { op := .add, rd := 2, rs1 := 1, rs2 := 1 },
+    { op := .lui, rd := 5, imm := 4 },
+    { op := .sw, rs1 := 5, rs2 := 2, imm := 0 },
+    { op := .lw, rd := 3, rs1 := 5, imm := 0 },
+    { op := .beq, rs1 := 3, rs2 := 2, imm := 8 },
+    { op := .addi, rd := 4, rs1 := 0, imm := 1 },
+    { op := .addi, rd := 17, rs1 := 0, imm := 10 },
+    { op := .ecall } ]
+
+def exSt : St :=
+  { regs := fun _ => 0, pc := 0, mem := .flat (Mem.Mem.empty Mem.riscvCfg),
+    imem := { prog := exProg, cache := none }, output := "", exitCode := none, cycles := 0, instrs := 0,
+    branches := 0, procs := 0, stalls := 0, flushes := 0 }
+
+example : ProgOK exSt.imem := ProgOK_of_allb _ (by decide)
+example : ICoh exSt.imem := ICoh_nocache _ rfl (by decide)
+example : PInv (PSt.init exSt true) := PInv_init _ _ (ProgOK_of_allb _ (by decide)) (ICoh_nocache _ rfl (by decide))
+
+instance (n : Nat) (p : PSt) : Decidable (runOK n p) := by unfold runOK; infer_instance
+
+/-- The example run: 23 non-faulting cycles, done exactly then, 8 instructions retired (the
+    instruction behind the taken branch is squashed), 4 stalls, 4 flushes, exit code 0. -/
+example :
+    runOK 23 (PSt.init exSt true) ∧ isDone (pipeRun 23 (PSt.init exSt true)) = true ∧
+    (∀ m, m < 23 → isDone (pipeRun m (PSt.init exSt true)) = false) ∧
+    (pipeRun 23 (PSt.init exSt true)).st.instrs = 8 ∧ (pipeRun 23 (PSt.init exSt true)).st.regs 4 = 0 ∧
+    (pipeRun 23 (PSt.init exSt true)).st.stalls = 4 ∧ (pipeRun 23 (PSt.init exSt true)).st.flushes = 4 ∧
+    (pipeRun 23 (PSt.init exSt true)).st.exitCode = some 0 ∧
+    retireLog 23 (PSt.init exSt true) = [0, 4, 8, 12, 16, 20, 28, 32] := by decide
+
+/-- The sequential machine is done after 8 steps on the example (hypothesis of `pipe_terminates`). -/
+example : singleDone (seqRun 8 exSt) = true := by decide
+
 end ArchSim.Props.C02
